@@ -36,7 +36,7 @@ def gen_cases(rng, tier, count=None):
             c["params"]["h_max"] = tight
             c["tight_cap"] = True
         c["no_last"] = True
-        out.append(c)
+        out.append(gen.add_queries(rng, c, 0.35))
     return out
 
 
